@@ -130,7 +130,16 @@ func (n *vfNet) DeliverAfter(d time.Duration, addr string, data []byte, from net
 	time.AfterFunc(d, func() { n.Deliver(addr, cp, from) })
 }
 
+// vfDumpWire makes every emission print one line (replay / debugging only).
+var vfDumpWire bool
+
 func (n *vfNet) emit(ep *vfEndpoint, data []byte, dst net.Addr) {
+	if vfDumpWire {
+		n.mu.Lock()
+		idx := n.emitIdx[ep.name]
+		n.mu.Unlock()
+		fmt.Printf("  wire %9v %s#%d -> %s %4dB %s\n", n.Now(), ep.name, idx, dst, len(data), vfDescribe(data, 0))
+	}
 	w := &vfWire{
 		Ticket: n.ticket.Add(1), VTime: n.Now(), From: ep.name, Dst: dst.String(),
 		Data: append([]byte(nil), data...),
